@@ -166,6 +166,24 @@ func sState(c *Ctx, rule string) {
 		}
 		c.Check(rule, sp.fn+":stores-pair", c.P.Pos(fn.Pos()), "stores (configuration, index) into configurations."+sp.cfg+" / ."+sp.idx, ok, strings.Join(got, ", "), 1)
 		settersUnconditional(c, rule, sp.fn, "configurations", sp.cfg, sp.idx)
+		if sp.cfg == "latest" {
+			// what other goroutines (GetConfiguration, Stats, the transport's
+			// address lookups) can reach is a deep copy, never the main loop's own
+			// Servers slice: a caller editing "its" configuration must not be
+			// editing the voter set that quorumSize and the lease check read
+			n := 0
+			for _, st := range c.P.CallsIn(fn, engine.Is("(*sync/atomic.Value).Store")) {
+				if c.P.D(engine.RecvValue(st.Instr)) != "recv.latestConfiguration" {
+					continue
+				}
+				n++
+				a := c.P.Arg(st.Instr, 0)
+				c.Check(rule, sp.fn+":publishes-a-clone", c.P.InstrPos(st.Instr), "the configuration published for other goroutines is Clone() of the one the main loop keeps", strings.HasSuffix(a, ".Clone()"), "Store("+a+")", 1)
+			}
+			if n != 1 {
+				c.Bad(rule, sp.fn+":publishes-a-clone", c.P.Pos(fn.Pos()), "one latestConfiguration.Store", fmt.Sprintf("%d", n))
+			}
+		}
 	}
 	if fn := c.Fn(rule, "(*Raft).processConfigurationLogEntry"); fn != nil {
 		for _, s := range c.P.CallsIn(fn, engine.Is("(*Raft).setLatestConfiguration")) {
